@@ -65,6 +65,11 @@ def Expr.Plain (e : Expr) : Prop := e.leafAll noHandleP = true ∧ e.noLazy = tr
 /-- Expressions over pure callables only. -/
 def Expr.Pure (e : Expr) : Prop := e.leafAll pureP = true
 
+instance (e : Expr) : Decidable e.Plain := by unfold Expr.Plain; exact inferInstance
+instance (e : Expr) : Decidable e.Pure := by unfold Expr.Pure; exact inferInstance
+
+deriving instance DecidableEq for Except
+
 /-! ### Monad facts -/
 
 theorem bind_def {α β : Type} (m : M α) (f : α → M β) (s : St) :
